@@ -6,6 +6,11 @@ from vf import runner
 
 
 def main():
+    import logging
+    # the sample also runs with the root logger at DEBUG (records are discarded by a NullHandler): code guarded by
+    # isEnabledFor(DEBUG) runs here and nowhere else
+    logging.getLogger().addHandler(logging.NullHandler())
+    logging.getLogger().setLevel(logging.DEBUG)
     job = json.loads(sys.argv[1])
     out = runner._run_shard(job)
     sys.stdout.write("\x00" + runner.dumps(out, default=str))
